@@ -633,6 +633,52 @@ def gen_fold_case(rng):
     return {'pt': pt, 'params': params, 'cm': [], 'fold': '%s/%s/%s' % (shape, '+'.join(sorted(set(wraps))), outer)}
 
 
+# ---- operator table of ArithmeticPT -----------------------------------------------------------------------------------
+def gen_arith_cases(rng, bodies=2):
+    """every combination of operand order x operator x scalar form (plain scalar / mapping naming ALL channels / mapping
+    naming a STRICT SUBSET of the channels) over random two- or three-channel bodies, with and without a top-level
+    renaming / dropping; channels the scalar does not name keep the neutral element (for `scalar - pt`: they play -pt)"""
+    out = []
+    for _ in range(bodies):
+        env = {'p0': rng.choice([F(1, 2), F(3, 2), F(-1), F(2)]), 'p1': rng.choice([F(1, 4), F(1), F(-1, 2)])}
+        ctx = Ctx(rng, env, set(n for n, v in env.items() if v.denominator == 1), {})
+        pool = list(CHAN_POOL)
+        rng.shuffle(pool)
+        chans = pool[:rng.choice([2, 2, 3])]
+        dur = F(rng.randint(1, 4), 2)
+        atom = gen_atom(ctx, list(chans), dur, 1, None, ('const', 'table', 'point'))
+        body = atom if rng.random() < 0.5 else {'k': 'seq', 'subs': [atom, gen_atom(ctx, list(chans), dur, 1, None,
+                                                                                  ('const', 'table'))]}
+        for lhs in (True, False):
+            for op in (['+', '-', '*', '/'] if lhs else ['+', '-', '*']):
+                for form in ('plain', 'all', 'subset'):
+                    def scal():
+                        if op == '/':
+                            return expr_for(ctx, rng.choice([F(2), F(1, 2), F(-2), F(4)]))
+                        return expr_for(ctx, rng.choice([F(3, 2), F(-1, 2), F(2), F(1, 4), F(-1)]))
+                    if form == 'plain':
+                        scalar = scal()
+                    elif form == 'all':
+                        scalar = {'map': [[c, scal()] for c in chans]}
+                    else:
+                        k = rng.randint(1, len(chans) - 1)
+                        sub = list(chans)
+                        rng.shuffle(sub)
+                        scalar = {'map': [[c, scal()] for c in sub[:k]]}
+                    import copy
+                    pt = {'k': 'arith', 'lhs': lhs, 'op': op, 'scalar': scalar, 'body': copy.deepcopy(body)}
+                    cm = []
+                    r = rng.random()
+                    if r < 0.25:
+                        cm = [[chans[0], 'X']]
+                    elif r < 0.4:
+                        cm = [[chans[-1], None]]
+                    used = free_params(pt)
+                    out.append({'pt': pt, 'params': {k2: str(v) for k2, v in env.items() if k2 in used}, 'cm': cm,
+                                'arith_table': '%s/%s/%s' % ('pt-op-s' if lhs else 's-op-pt', op, form)})
+    return out
+
+
 # ---- small-alphabet table stream -------------------------------------------------------------------------------------
 def gen_table_case(rng, exhaustive_index=None):
     """one table (optionally time-reversed / followed by a constant) over a SMALL alphabet: values in {0, 1, 1/2}, time
